@@ -623,6 +623,18 @@ func c12PackageMenu() []pkgConfig {
 		bad("onbounds-wrong-signature", map[string]string{"g.lox": pkgLox, "user.go": pkgUserOK + "\nfunc (p *parser) _onBounds(r any) {}\n"}),
 		ok("import-stdlib", map[string]string{"g.lox": pkgLox, "user.go": strings.Replace(rep("func (p *parser) on_e__2(a Token) any                 { return nil }", "func (p *parser) on_e__2(a Token) any { return strings.ToUpper(\"x\") }"), "package p\n", "package p\n\nimport \"strings\"\n", 1)}),
 		bad("import-missing-package", map[string]string{"g.lox": pkgLox, "user.go": strings.Replace(pkgUserOK, "package p\n", "package p\n\nimport _ \"example.com/nope\"\n", 1)}),
+		// errors that `go list` itself reports (packages.ListError), not the parser or the type checker
+		bad("import-cycle", map[string]string{"g.lox": pkgLox, "user.go": strings.Replace(pkgUserOK, "package p\n", "package p\n\nimport _ \"example.com/p/r\"\n", 1), "r/r.go": "package r\n\nimport _ \"example.com/p\"\n"}),
+		bad("import-self", map[string]string{"g.lox": pkgLox, "user.go": strings.Replace(pkgUserOK, "package p\n", "package p\n\nimport _ \"example.com/p\"\n", 1)}),
+		bad("import-internal-of-std", map[string]string{"g.lox": pkgLox, "user.go": strings.Replace(pkgUserOK, "package p\n", "package p\n\nimport _ \"internal/abi\"\n", 1)}),
+		bad("import-main-package", map[string]string{"g.lox": pkgLox, "user.go": strings.Replace(pkgUserOK, "package p\n", "package p\n\nimport _ \"example.com/p/m\"\n", 1), "m/m.go": "package main\n\nfunc main() {}\n"}),
+		bad("import-empty-directory", map[string]string{"g.lox": pkgLox, "user.go": strings.Replace(pkgUserOK, "package p\n", "package p\n\nimport _ \"example.com/p/e\"\n", 1), "e/readme.txt": "no go files\n"}),
+		bad("import-c-without-cgo-file", map[string]string{"g.lox": pkgLox, "user.go": pkgUserOK, "c.go": "package p\n\n// #include <nosuchheader.h>\nimport \"C\"\n"}),
+		bad("go-file-bad-package-clause", map[string]string{"g.lox": pkgLox, "user.go": pkgUserOK, "other.go": "pakage p\n"}),
+		bad("go-file-empty", map[string]string{"g.lox": pkgLox, "user.go": pkgUserOK, "other.go": ""}),
+		bad("go-file-invalid-build-constraint", map[string]string{"g.lox": pkgLox, "user.go": "//go:build (((\n\n" + pkgUserOK}),
+		bad("all-go-files-excluded-by-constraint", map[string]string{"g.lox": pkgLox, "user.go": "//go:build ignore\n\n" + pkgUserOK}),
+		bad("embed-missing-file", map[string]string{"g.lox": pkgLox, "user.go": strings.Replace(pkgUserOK, "package p\n", "package p\n\nimport _ \"embed\"\n\n//go:embed nosuchfile.txt\nvar data string\n", 1)}),
 	}
 }
 
@@ -743,7 +755,9 @@ func c12Packages(c *mc.Ctx, ws *pipe.Workspace) {
 		switch {
 		case exit == 0 && gen != 3:
 			report("partial-output", fmt.Sprintf("exit 0 with %d of 3 complete generated files", gen))
-		case exit != 0 && strings.TrimSpace(stderr.String()) == "":
+		case exit != 0 && withoutTrailer(stderr.String()) == "":
+			// "Error: errors ocurred" is what main prints after every failed run; it
+			// says that diagnostics were printed, it is not one
 			report("silent-failure", "non-zero exit without a diagnostic")
 		case exit == 0 && !pc.expectOK && pc.mod:
 			c.Stats.Note("package configuration " + pc.name + " was accepted (not a C12 matter)")
@@ -751,6 +765,17 @@ func c12Packages(c *mc.Ctx, ws *pipe.Workspace) {
 			c.Stats.Note("package configuration " + pc.name + " was refused: " + firstLine(stderr.String()) + " (not a C12 matter)")
 		}
 	}
+}
+
+// withoutTrailer removes the line main prints after every failed generation.
+func withoutTrailer(stderr string) string {
+	var keep []string
+	for _, l := range strings.Split(stderr, "\n") {
+		if t := strings.TrimSpace(l); t != "" && t != "Error: errors ocurred" {
+			keep = append(keep, t)
+		}
+	}
+	return strings.Join(keep, "\n")
 }
 
 func c12Replay(raw json.RawMessage) *mc.Violation {
